@@ -2539,6 +2539,9 @@ class _Simu(_IObserver, _params.Updatable, ABC):
 
         self.__Check_problemTypes(problemType)
 
+        # a list of nodes is accepted, as by add_dirichlet and the distributed loads
+        nodes = np.asarray(nodes)
+
         dofsValues, dofs = self.__Bc_pointLoad(problemType, nodes, values, unknowns)
 
         self._Bc_Add_Neumann(
